@@ -45,6 +45,16 @@ def validate(ctx, trace, ntraces, what):
 
 def run(ctx):
     quick = ctx.quick
+    if ctx.replay:
+        # a recorded syscall trace (ndjson of FileLoggerAbs operations): judge it again with TLC
+        if ctx.replay.endswith(".ndjson"):
+            n = sum(1 for l in open(ctx.replay) if '"Reset"' in l)
+            ctx.cov["states"] = ctx.cov["transitions"] = 1
+            validate(ctx, ctx.replay, n, "replay")
+            ctx.sample({"replayed_trace": ctx.replay, "runs": n})
+            return
+        raise Inconclusive("replay of %s: directory-inspection findings are reproduced by re-running the check with the "
+                           "VERIF_SEED in the file name (the scenario, its options and stop are stored in the file)" % ctx.replay)
     if not shutil.which("strace"):
         raise Inconclusive("strace is not available")
     # 1. the design, exhaustively (bounded): every option combination, stops at every step
